@@ -289,6 +289,22 @@ def r07_2(ctx):
                         detail=f"returns {got!r}, region equality gives {want}")
             else:
                 out.ok(fn.qname, f"{label} -> {want}", where=fn.where())
+        # equal regions whose component areas differ in the last bit (the same boundary parametrised differently):
+        # the components are stored largest area first on both sides; both directions of == must say True
+        a_hi, a_lo = 3.0000000000000004, 3.0
+        table = {frozenset(("s1", "t1")), frozenset(("s2", "t2"))}
+        for label, sa, ta in (("left operand's areas a hair larger", (a_hi, 2.0), (a_lo, 2.0)),
+                              ("right operand's areas a hair larger", (a_lo, 2.0), (a_hi, 2.0))):
+            S = Obj("S", subshapes=tuple(Sub(f"s{i + 1}", table, sa[i]) for i in range(2)), kind=cls)
+            T = Obj("T", subshapes=tuple(Sub(f"t{i + 1}", table, ta[i]) for i in range(2)), kind=cls)
+            try:
+                got = Runner(ctx, set(), eq_hook(cls, {"S": sum(sa), "T": sum(ta)})).call_fn(fn, [S, T])
+                (out.ok if got is True else out.bad)(
+                    fn.qname, f"equal components, {label} -> True" if got is True else
+                    "wrong answer: equal components whose areas differ in the last bit", where=fn.where(),
+                    detail="" if got is True else f"{label}: returns {got!r}")
+            except (Undecided, Raised) as ex:
+                out.undecided(fn.qname, f"area noise ({label}): {ex}", where=fn.where())
         # kind guard
         for other_kind in ("SimpleShape", "EmptyShape", "DisjointShape" if cls == "ConnectedShape" else "ConnectedShape"):
             S = Obj("S", subshapes=(Sub("s1", None), Sub("s2", None)), kind=cls)
